@@ -50,7 +50,7 @@ def int : Handler := fun args impl =>
         let vv := if cfg.ap then none else viaValue cfg ty p
         let m := String.intercalate "|" [text,
           (match vv with | some s => s | none => fields.getD 1 ""), (match vv with | some s => s | none => fields.getD 2 ""),
-          text, (if cfg.ap then fields.getD 4 "" else text)]
+          text, (if cfg.ap then fields.getD 4 "" else text), text]
         -- the property on the implementation's own outputs
         let s1 := if fields.getD 0 "" == spec then [] else [s!"C06 {t} from text: got {fields.getD 0 ""}, the literal's value/range verdict is {spec}"]
         let s2 := if fields.getD 3 "" == spec then [] else [s!"C06 {t} as quoted map key: got {fields.getD 3 ""}, expected {spec}"]
@@ -65,9 +65,10 @@ def int : Handler := fun args impl =>
                   then [s!"C06 {t} via Value: got {fields.getD 1 ""} / {fields.getD 2 ""}, expected {spec}"] else []
         let s4 := if (fields.getD 4 "" != spec) && (representable || ty.is128 == false || cfg.ap) && !(ty.is128 && !cfg.ap && !representable)
                   then [s!"C06 {t} as key of a Value map: got {fields.getD 4 ""}, expected {spec}"] else []
+        let s6 := if fields.getD 5 "" == spec then [] else [s!"C06 {t} after an escaped string, from a reader: got {fields.getD 5 ""}, expected {spec}"]
         let wrap := fields.any fun f => f.startsWith "OK" && f != spec
         let s5 := if wrap then [s!"C06 {t}: some path returned a different integer than the literal denotes: {impl} (expected {spec})"] else []
-        { model := m, specs := s1 ++ s2 ++ s3 ++ s4 ++ s5 }
+        { model := m, specs := s1 ++ s2 ++ s3 ++ s4 ++ s5 ++ s6 }
     | _, _ => bad "decode"
   | _ => bad "arity"
 
